@@ -1074,3 +1074,49 @@ pub mod verif_hooks_tablets {
         )
     }
 }
+
+/// Verification hook (only with `--cfg scylla_verif`): runs the REAL
+/// `ClusterState::update_tablets` on a `ClusterState` whose known nodes are `known_nodes` and
+/// whose tablets are the driver's `TabletsInfo` (moved in and back out; the ring and the
+/// keyspaces are empty, `update_tablets` reads neither).
+#[cfg(scylla_verif)]
+#[allow(missing_docs)]
+pub mod verif_hooks_update_tablets {
+    use super::{ClusterState, KnownNodes};
+    use crate::frame::response::result::TableSpec;
+    use crate::routing::locator::ReplicaLocator;
+    use crate::routing::locator::tablets::verif_hooks::{VerifTablets, parsing_error_class};
+    use crate::routing::locator::tablets::{RawTablet, TabletsInfo};
+    use bytes::Bytes;
+    use std::collections::HashMap;
+
+    /// `RawTablet::from_custom_payload(payload)`; when it yields a tablet,
+    /// `ClusterState::update_tablets(vec![(table, raw_tablet)])`.
+    /// `None`: no tablet entry in the payload. `Some(Err(class))`: payload refused.
+    pub fn update_tablets_from_payload(
+        tablets: &mut VerifTablets,
+        known_nodes: &KnownNodes,
+        ks: &str,
+        table: &str,
+        payload: &HashMap<String, Bytes>,
+    ) -> Option<Result<(), &'static str>> {
+        let raw = match RawTablet::from_custom_payload(payload)? {
+            Ok(raw) => raw,
+            Err(err) => return Some(Err(parsing_error_class(&err))),
+        };
+        let info = std::mem::replace(tablets.info_mut(), TabletsInfo::new());
+        let mut state = ClusterState {
+            known_nodes: known_nodes.clone(),
+            all_nodes: Vec::new(),
+            keyspaces: HashMap::new(),
+            locator: ReplicaLocator::new(std::iter::empty(), std::iter::empty(), info),
+            cluster_name: None,
+        };
+        state.update_tablets(vec![(
+            TableSpec::owned(ks.to_owned(), table.to_owned()),
+            raw,
+        )]);
+        *tablets.info_mut() = state.locator.tablets;
+        Some(Ok(()))
+    }
+}
